@@ -1340,6 +1340,56 @@ def replay_can_dyn_decode(d):
                             f"Can::Decode(frame {bytes(d['frame']).hex()})")
 
 
+_JSON_MAIN = r"""
+#include <cstdio>
+#include <exception>
+extern "C" long sta_enc(const unsigned char* args, unsigned char* out);
+extern "C" long sta_dec(const unsigned char* in, unsigned long n, unsigned char* area);
+int main(int argc, char** argv) {
+    static unsigned char in[65536], out[65536];
+    unsigned long n = 0;
+    for (const char* p = argv[2]; p[0] && p[1]; p += 2) { unsigned v; sscanf(p, "%2x", &v); in[n++] = (unsigned char)v; }
+    try {
+        long m = argv[1][0] == 'e' ? sta_enc(in, out) : sta_dec(in, n, out);
+        if (m < 0) { printf("nullopt\n"); return 0; }
+        for (long i = 0; i < m; i++) printf("%02x", out[i]);
+        printf("\n");
+    } catch (const std::exception& e) { printf("throws %s\n", e.what()); }
+    return 0;
+}
+"""
+
+
+def replay_cpp_json(d):
+    """StaticSchema::EncodeJson / DecodeJson through the JSON harness TU, compiled natively."""
+    import os
+
+    from . import cxx
+    from .native import Scratch, run
+
+    sch = _schema(d)
+    want = "".join(f"{b:02x}" for b in d["expected"])
+    with Scratch() as dd:
+        if d.get("_primed") and d.get("decoy_text"):
+            from .prime import prime
+            prime(d["decoy_text"], ("cpp",))
+        cxx.generate_cpp(d["schema_text"], dd)
+        open(os.path.join(dd, "harness.cpp"), "w").write(cxx.dyn_harness_source(sch, dynamic=False))
+        open(os.path.join(dd, "main.cpp"), "w").write(_JSON_MAIN)
+        for cc in ("clang++-14", "g++"):
+            rc, so, se = run([cc, "-std=c++17", "-O1", "-w", "-I", dd, "-I", cxx.THIRD_PARTY, "harness.cpp", "main.cpp",
+                              "-o", os.path.join(dd, "a.out")], cwd=dd, timeout=900)
+            if rc:
+                return True, f"does not compile with {cc}: {se[-300:]}"
+            rc, so, se = run([os.path.join(dd, "a.out"), d["direction"][0], "".join(f"{b:02x}" for b in d["input"]) or "00"], cwd=dd, timeout=60)
+            got = so.strip() if rc == 0 else f"crashed rc={rc}"
+            if not d["input"] and d["direction"] == "decode":
+                pass
+            if got != want:
+                return True, f"{cc}: StaticSchema::{d['direction'].capitalize()}Json on value {d['value']}: got {got}, expected {want}"
+    return False, "JSON entry point agrees with the canonical format"
+
+
 def replay_cpp_carrier(d):
     import fcp_cpp.generator as G
 
